@@ -558,6 +558,18 @@ func (oc *objectCache) varDecl(obj *types.Var) *ast.ValueSpec {
 	return nil
 }
 
+// notePositionAtUse is notePosition for an error found while processing the
+// expression at p. An error that already has a position keeps it, unless that
+// position lies in a dependency (or the standard library): such a problem is
+// reported where the user refers to it, and the message mentions the
+// declaration.
+func (oc *objectCache) notePositionAtUse(p token.Position, err error) error {
+	if w, ok := err.(*wireErr); ok && !oc.rootFiles[w.position.Filename] {
+		return notePosition(p, fmt.Errorf("%v (declared at %s)", w.error, w.position))
+	}
+	return notePosition(p, err)
+}
+
 // processExpr converts an expression into a Wire structure. It may return a
 // *Provider, an *IfaceBinding, a *ProviderSet, a *Value or a []*Field.
 func (oc *objectCache) processExpr(info *types.Info, pkgPath string, expr ast.Expr, varName string) (interface{}, []error) {
@@ -566,13 +578,7 @@ func (oc *objectCache) processExpr(info *types.Info, pkgPath string, expr ast.Ex
 	if obj := qualifiedIdentObject(info, expr); obj != nil {
 		item, errs := oc.get(obj)
 		return item, mapErrors(errs, func(err error) error {
-			if w, ok := err.(*wireErr); ok && !oc.rootFiles[w.position.Filename] {
-				// The problem lies in a dependency (or the standard library):
-				// report it where the user refers to it and mention the
-				// declaration.
-				return notePosition(exprPos, fmt.Errorf("%v (declared at %s)", w.error, w.position))
-			}
-			return notePosition(exprPos, err)
+			return oc.notePositionAtUse(exprPos, err)
 		})
 	}
 	if call, ok := expr.(*ast.CallExpr); ok {
@@ -612,7 +618,7 @@ func (oc *objectCache) processExpr(info *types.Info, pkgPath string, expr ast.Ex
 		case "Struct":
 			s, err := processStructProvider(oc.fset, info, call)
 			if err != nil {
-				return nil, []error{notePosition(exprPos, err)}
+				return nil, []error{oc.notePositionAtUse(exprPos, err)}
 			}
 			return s, nil
 		case "FieldsOf":
@@ -628,7 +634,9 @@ func (oc *objectCache) processExpr(info *types.Info, pkgPath string, expr ast.Ex
 	if tn := structArgType(info, expr); tn != nil {
 		p, errs := processStructLiteralProvider(oc.fset, tn)
 		if len(errs) > 0 {
-			return nil, notePositionAll(exprPos, errs)
+			return nil, mapErrors(errs, func(err error) error {
+				return oc.notePositionAtUse(exprPos, err)
+			})
 		}
 		return p, nil
 	}
